@@ -62,6 +62,21 @@ func VerifC18_widelines() {
 	verifC18Metrics(vfWideLines("w", n))
 }
 
+// VerifC18_asciilines: every byte is an arbitrary ASCII byte (so CR, LF, TAB and the other controls
+// occur in every position and combination: "\r\n", "\n\r", a lone CR at the end of a line ...).
+func VerifC18_asciilines() {
+	n := 4
+	if vfTier() == 1 {
+		n = 5
+	}
+	k := vfChoice("s.n", n+1)
+	b := make([]byte, k)
+	for i := 0; i < k; i++ {
+		b[i] = vfByte(vfName("s.b", i), vfASCII)
+	}
+	verifC18Metrics(string(b))
+}
+
 func verifC18Metrics(s string) {
 	// the functions are pure: what was measured earlier in the process (the whole string, as one
 	// line's worth of cells or runes) has no influence on later answers
